@@ -875,6 +875,14 @@ impl<'d> Session<'d> {
     /// Is `name` both the type name of a definition and the name typify derives
     /// for an inline (untitled) object/enum property of another definition?
     fn child_name_collides_with_definition(&self, name: &str) -> bool {
+        // a patch renames BOTH the definition and the colliding child
+        let original: Option<&str> = self
+            .desc_settings
+            .patches
+            .iter()
+            .find(|p| p.rename.as_deref() == Some(name))
+            .map(|p| p.name.as_str());
+        let name = original.unwrap_or(name);
         let is_def = self.defs.keys().any(|k| crate::gen::pascal(k) == name);
         if !is_def {
             return false;
